@@ -142,12 +142,14 @@ def ownership_facts(fx):
         obs.append(anchor_ob("R-THREAD", "no closure passed to ThreadPool::execute"))
     for j in jobs:
         f = fx.fn(j)
-        for c in f.captures:
-            if COPYHANDLE in c["ty"]:
-                ok = c["by"] == "value" and c["ty"].startswith("alloc::sync::Arc<")
-                obs.append(Ob("R-THREAD", mkkey("R-THREAD", j, "capture:" + c["name"], 0), ok, f.loc(), j,
-                              "pool job captures %s: %s by %s" % (c["name"], c["ty"], c["by"]),
-                              None if ok else dict(capture=c)))
+        # a job owns what it works on (the handle Arc, directly or inside a job struct): nothing is borrowed from the
+        # dispatcher's stack, so the last job to finish is the last owner
+        byref = [c for c in f.captures if c["by"] != "value"]
+        bare = [c for c in f.captures if COPYHANDLE in c["ty"] and not c["ty"].startswith("alloc::sync::Arc<")]
+        ok = not byref and not bare
+        obs.append(Ob("R-THREAD", mkkey("R-THREAD", "pool-job", "captures", 0, j.split("::")[-2] if "::" in j else j), ok, f.loc(), j,
+                      "pool job owns its captures (all by value, handles only behind Arc): %s" % ok,
+                      None if ok else dict(by_ref=byref, bare_handles=bare)))
     return obs
 
 
